@@ -301,5 +301,17 @@ def run(facts, rep, tier, ctx):
         from .c10 import _Prefixed
         k = c15.poll_next_rules(facts, _Prefixed(rep, "R20.7"), D)
         rep.floor("poll_next typestate obligations", k, 12)
+    # R20.8 the stream route of copy_file / move_file hands the destination's own handle to io::copy: a buffering wrapper
+    # that is never flushed writes its tail in Drop, where a failure cannot be reported (shared with C11 R11.3)
+    from ..pathrules import PathRules
+    for w_ in (ws, wa):
+        if not w_.present():
+            continue
+        scratch = Report("g")
+        PathRules(facts, w_, D).generic_routes(scratch, "G")
+        for o in scratch.obligations:
+            d = o["key"].split("|")[2]
+            if "stream copy" in d:
+                rep.ob(("A/" if w_.asyncw else "") + "R20.8", o["fn"], d, o["ok"], o["detail"], o["loc"])
     rep.assume("`?` (Try::branch + from_residual) propagates; panicking consumers (unwrap/expect) are C13's concern")
     rep.assume("errors of pure path translation (join) are not underlying-filesystem failures")
